@@ -9,6 +9,8 @@
 (* the generated library and the declared response type.  A client session *)
 (* makes calls; one action per step of a call:                             *)
 (*                                                                         *)
+(*   AddBinding, Seal  an API author writes the rule / annotations (shape)  *)
+(*   BuildLeaf         the caller fills the request, one leaf at a time    *)
 (*   Invoke            the caller hands over a request (abstract valuation) *)
 (*   RefuseNoBinding   method without binding: NotImplementedError         *)
 (*   SelectBinding     first binding all of whose path variables are set   *)
@@ -132,6 +134,7 @@ PathTab ==
   @@ "in2"   :> << TV("inner.name", <<"items", "*">>, "") >>                           \* nested {inner.name=items/*}
   @@ "in4c"  :> << TV("inner.name", <<"shelves", "*", "items", "*">>, ":del") >>       \* nested, 4 segments, :verb
   @@ "cls2"  :> << TV("class", <<"items", "*">>, "") >>                                \* reserved word as field name
+  @@ "int1"  :> << TL("n"), TV("r_int32", <<>>, "") >>                                 \* n/{r_int32}: integer field
 BLit == <<"b1", "b2", "b3", "b4">>           \* literal naming the position of the binding inside the rule
 VerbSeq == <<"get", "post", "put", "delete", "patch">>
 VerbNext == [get |-> "post", post |-> "put", put |-> "delete", delete |-> "patch", patch |-> "get"]
